@@ -261,6 +261,9 @@ func init() {
 				checkParseContract(t, rd.Src, "valid")
 				t.Distinct(rd.Src)
 			}},
+			{Name: "native-fuzzing", Quick: 0, Thorough: 1, Run: func(t *fw.T) {
+				runNativeFuzz(t, "FuzzParse", 10000000, ParseContractFinding)
+			}},
 			{Name: "deep-nesting", Quick: 60, Thorough: 240, Run: func(t *fw.T) {
 				shapes := []func(n int) string{
 					func(n int) string { return nest("(", "x", ")", n) },
@@ -293,4 +296,50 @@ func init() {
 			}},
 		},
 	})
+}
+
+// ParseContractFinding is the pure form of the C11 monitor (used by the native fuzz target): first finding or nil.
+func ParseContractFinding(src string) (fd *Finding) {
+	for _, m := range AllModes {
+		func() {
+			defer func() {
+				if r := recover(); r != nil && fd == nil {
+					fd = &Finding{"panic", m.String(), fmt.Sprintf("panic in mode %s: %v", m, r)}
+				}
+			}()
+			po := parse(src, m)
+			if fd != nil {
+				return
+			}
+			if po.Prog == nil {
+				fd = &Finding{"nil-program", m.String(), "nil program"}
+				return
+			}
+			if (po.Err != nil) != (len(po.Errors) > 0) {
+				fd = &Finding{"error-iff-list", m.String(), "error value and error list disagree"}
+				return
+			}
+			if probs := walkTree(po.Prog, po.Err == nil); len(probs) > 0 {
+				fd = &Finding{"tree", probs[0], probs[0]}
+				return
+			}
+			if len(po.Errors) > 0 {
+				ranges := tokenRanges(src)
+				for _, e := range po.Errors {
+					if !ranges[rng{e.Range.Start, e.Range.End}] {
+						fd = &Finding{"error-range", errKey(e.Message), fmt.Sprintf("error %q range %v-%v is not a token range", e.Message, e.Range.Start, e.Range.End)}
+						return
+					}
+				}
+				return
+			}
+			for _, c := range []Cfg{{}, {Map: true}, {Pretty: true, Spaces: 2}, {Pretty: true, Tabs: true, NoSemi: true, Map: true}} {
+				c.Compile(po.Prog)
+			}
+		}()
+		if fd != nil {
+			return fd
+		}
+	}
+	return nil
 }
